@@ -170,8 +170,10 @@ def load_known_findings():
 
 
 def write_evidence(prop, ev):
-    os.makedirs(os.path.join(VERIF, 'evidence'), exist_ok=True)
-    p = os.path.join(VERIF, 'evidence', prop + '.json')
+    # evidence/ describes /repo only; runs against another tree (VERIF_REPO, maintenance) write elsewhere
+    sub = 'evidence' if os.path.realpath(REPO) == '/repo' else 'evidence_other_tree'
+    os.makedirs(os.path.join(VERIF, sub), exist_ok=True)
+    p = os.path.join(VERIF, sub, prop + '.json')
     json.dump(ev, open(p, 'w'), indent=1, sort_keys=True)
     return p
 
